@@ -2,6 +2,7 @@
 
 from typing import List, Optional, Set, Union, get_args
 
+from classy_blocks.base.exceptions import EdgeNotFoundError
 from classy_blocks.construct.assemblies.assembly import Assembly
 from classy_blocks.construct.operations.operation import Operation
 from classy_blocks.construct.shape import Shape
@@ -134,6 +135,17 @@ class Mesh:
 
             if entity.geometry is not None:
                 self.add_geometry(entity.geometry)
+
+        if not skip_edges:
+            # an edge defined by an operation that was added later
+            # also belongs to blocks that were created before it
+            for block in self.block_list.blocks:
+                for wire in block.wire_list:
+                    if wire.edge.kind == "line":
+                        try:
+                            wire.edge = self.edge_list.find(wire.vertices[0], wire.vertices[1])
+                        except EdgeNotFoundError:
+                            pass
 
     def grade(self) -> None:
         if not self.is_assembled:
